@@ -11,7 +11,10 @@
 (*        <r/> is only counted (nr) -- the property does not talk about it;*)
 (* rep  = send-task continuations that ran, in order; nz = nonza report;    *)
 (* en / inH / ph = StreamAckManager::enabled(), lastIncomingSequenceNumber(),*)
-(*        phase as the script observed it.                                  *)
+(*        phase as the script observed it; pend = numbers of the sendIq      *)
+(*        requests whose task has not finished; iq = IQ tasks that finished  *)
+(*        during the step (informative).  SendIqRequest carries the stanza   *)
+(*        number "id" like SendStanza; RecvIqResponse the request number "i".*)
 (*                                                                          *)
 (* Three layers per line:                                                   *)
 (*  - model:   StreamMgmt's own action for the logged step (stutters when   *)
@@ -64,8 +67,9 @@ ProjEq(o, users) ==
     /\ o.nz = nzrep'
     /\ o.en = enabled'
     /\ o.inH = inH'
+    /\ Range(o.pend) = pend'
     /\ o.ph = phase'
-Proj == [out |-> outp', nz |-> nzrep', en |-> enabled', inH |-> inH', ph |-> phase',
+Proj == [out |-> outp', nz |-> nzrep', en |-> enabled', inH |-> inH', ph |-> phase', pend |-> pend',
          rep |-> ModelReports]
 
 ModelAct(ev) ==
@@ -74,6 +78,9 @@ ModelAct(ev) ==
       [] ev.e = "Ack"        -> Ack(ev.h)
       [] ev.e = "Req"        -> Req
       [] ev.e = "RecvStanza" -> RecvStanza
+      [] ev.e = "SendIqRequest" -> SendIqRequest
+      [] ev.e = "RecvIqResponse" -> RecvIqResponse(ev.i)
+      [] ev.e = "RecvIqGet"  -> RecvIqGet
       [] ev.e = "RecvNonza"  -> RecvNonza
       [] ev.e = "Loss"       -> Loss
       [] ev.e = "Reconnect"  -> Reconnect(ev.sm)
@@ -88,8 +95,9 @@ ModelAct(ev) ==
 MonNext(m, ev) ==
     LET o == ev.o
         W == StanzaIds(o.out)
-        isSend == ev.e = "SendStanza"
+        isSend == ev.e \in {"SendStanza", "SendIqRequest"}     \* the user hands over stanza number ev.id
         sid == IF isSend THEN {ev.id} ELSE {}
+        uid == IF ev.e = "SendStanza" THEN {ev.id} ELSE {}     \* only QXmppClient::send exposes the send report
         act2 == CASE ev.e \in {"EnableOk", "ResumeOk"} -> TRUE
                   [] ev.e \in {"Loss", "Reconnect", "EnableFail", "ResumeFail", "Destroy"} -> FALSE
                   [] OTHER -> m.act
@@ -101,13 +109,13 @@ MonNext(m, ev) ==
         order |-> IF act2 THEN m.order \o fresh ELSE m.order,
         tracked |-> IF act2 THEN m.tracked \cup Range(fresh) ELSE m.tracked,
         ever |-> m.ever \cup Range(W) \cup sid,
-        user |-> m.user \cup sid,
+        user |-> m.user \cup uid,
         sess |-> IF ev.e = "EnableOk" THEN W
                  ELSE IF act2 THEN m.sess \o Dedup(SelectSeq(W, LAMBDA i : i \notin Range(m.sess)))
                  ELSE m.sess,
         covered |-> cov2,
         recv |-> IF ev.e = "EnableOk" THEN 0
-                 ELSE IF ev.e = "RecvStanza" /\ m.act THEN m.recv + 1 ELSE m.recv,
+                 ELSE IF ev.e \in {"RecvStanza", "RecvIqResponse", "RecvIqGet"} /\ m.act THEN m.recv + 1 ELSE m.recv,
         reported |-> m.reported \cup {o.rep[k].id : k \in 1..Len(o.rep)},
         dead |-> m.dead]
 
